@@ -50,6 +50,9 @@ func VH_C18_complement_table() {
 	vAssert("transcribe-same", vImplies(!isA, t == d))
 	vAssert("transcribe-A", vImplies(isA, vAnd(vOr(t == 'U', t == 'u'), vIsLower(t) == vIsLower(c))))
 	vAssert("arg-unchanged", seq.Bytes()[0] == c)
+	// the operations keep no state between calls: the same call after the others gives the same letter
+	vAssert("complement-same-after-transcribe", Complement(seq).Bytes()[0] == d)
+	vAssert("transcribe-same-after-complement", Transcribe(seq).Bytes()[0] == t)
 	vObserve("d", int(d))
 	vObserve("t", int(t))
 }
@@ -153,12 +156,12 @@ func VH_C18_match() {
 	vObserve("n", len(segs))
 }
 
-//verif:harness prop=C18 quick=4 thorough=7 merge=concrete timeout=1500
-//verif:bounds Search: (sequence,query) lengths (2,1) (3,2) (4,2) and the concrete sequence ff 61 ff 41 with a one-letter query (quick), plus (4,1) (5,2) (5,3) thorough, symbolic bytes over {a,A,c,C,0xff}: the result is the ascending list of all (overlapping) case-insensitive occurrences
+//verif:harness prop=C18 quick=6 thorough=10 merge=concrete timeout=1500
+//verif:bounds Search: (sequence,query) lengths (2,1) (3,2) (4,2), the concrete sequence ff 61 ff 41 with a one-letter query, a query as long as the sequence (2,2) and longer than it (1,2) (quick), plus (4,1) (5,2) (5,3) (3,3) thorough, symbolic bytes over {a,A,c,C,0xff}: the result is the ascending list of all (overlapping) case-insensitive occurrences
 //verif:assume index/suffixarray: Lookup returns all occurrence offsets in an unspecified order (modelled: descending)
 func VH_C18_search() {
-	sh := vShard(4 + 3*vTier())
-	pick := [][2]int{{2, 1}, {3, 2}, {4, 2}, {4, 1}, {4, 1}, {5, 2}, {5, 3}}[sh]
+	sh := vShard(6 + 4*vTier())
+	pick := [][2]int{{2, 1}, {3, 2}, {4, 2}, {4, 1}, {2, 2}, {1, 2}, {4, 1}, {5, 2}, {5, 3}, {3, 3}}[sh]
 	sn, qn := pick[0], pick[1]
 	alpha := func(name string, n int) []byte {
 		p := make([]byte, n)
